@@ -238,8 +238,8 @@ namespace smt
     {
         assert(root_level());
         // we try to avoid creating a new variable..
-        std::sort(ls.begin(), ls.end(), [](const auto &l0, const auto &l1)
-                  { return variable(l0) < variable(l1); });
+        std::sort(ls.begin(), ls.end());
+        ls.erase(std::unique(ls.begin(), ls.end()), ls.end()); // the arguments are considered as a set of literals..
         lit p;
         size_t lits_size = 0;
         bool has_true = false; // whether one of the literals is already true..
@@ -321,8 +321,8 @@ namespace smt
     {
         assert(root_level());
         // we try to avoid creating a new variable..
-        std::sort(ls.begin(), ls.end(), [](const auto &l0, const auto &l1)
-                  { return variable(l0) < variable(l1); });
+        std::sort(ls.begin(), ls.end());
+        ls.erase(std::unique(ls.begin(), ls.end()), ls.end()); // the arguments are considered as a set of literals..
         lit p;
         size_t j = 0;
         bool has_true = false; // whether one of the literals is already true..
